@@ -128,7 +128,8 @@ fn write_step<const NS: usize, const NC: usize>() {
     assert!(b.remaining_mut() == max_data.saturating_sub(written + len));
     assert!(b.is_all_rcvd() == (offset == written + len) && b.is_empty() == b.is_all_rcvd());
     kani::cover!(len > 0 && written + len > max_data, "write beyond the peer's window");
-    kani::cover!(len > 0 && b.state.0.len() == NS + 1, "new Pending boundary");
+    // (NS == 0 with stored data: the window is full, new bytes stay outside the map)
+    kani::cover!((NS == 0 && NC > 0) || (len > 0 && b.state.0.len() == NS + 1), "new Pending boundary");
     core::mem::forget(b);
 }
 
@@ -152,7 +153,7 @@ fn extend_step<const NS: usize, const NC: usize>() {
     if y < written {
         assert!(color_ext(&b, y) == before, "no byte changes colour (bytes that enter the window are never-sent)");
     }
-    kani::cover!(b.state.size() > size, "bytes written beyond the old window enter the map");
+    kani::cover!(NC == 0 || b.state.size() > size, "bytes written beyond the old window enter the map");
     core::mem::forget(b);
 }
 
@@ -172,6 +173,7 @@ fn pick_up_step<const NS: usize, const NC: usize>() {
         kani::assume(a >= 1 && a as u64 <= LIM);
     }
     let before = color_ext(&b, x);
+    let (mut spans_two, mut saw_retx, mut saw_fresh, mut saw_err) = (false, false, false, false);
 
     let res = b.pick_up(|_| p, flow_limit);
 
@@ -214,9 +216,9 @@ fn pick_up_step<const NS: usize, const NC: usize>() {
                 i += 1;
             }
             assert!(pos == total && hit, "picked data covers the whole offered range");
-            kani::cover!(NC < 2 || chunks.len() == 2, "range spans two stored chunks");
-            kani::cover!(!fresh, "retransmission");
-            kani::cover!(fresh, "fresh data");
+            spans_two = chunks.len() == 2;
+            saw_retx = !fresh;
+            saw_fresh = fresh;
             core::mem::forget(chunks);
         }
         Err(_) => {
@@ -224,8 +226,14 @@ fn pick_up_step<const NS: usize, const NC: usize>() {
                 assert!(color_ext(&b, x) == before, "on Err nothing changed");
             }
             assert!(b.state.0.len() == NS);
+            saw_err = true;
         }
     }
+    // (no map boundary: nothing is ever offered)
+    kani::cover!(NS == 0 || NC < 2 || spans_two, "range spans two stored chunks");
+    kani::cover!(NS == 0 || saw_retx, "retransmission");
+    kani::cover!(NS == 0 || saw_fresh, "fresh data");
+    kani::cover!(saw_err, "nothing offered");
     check_js(&b, y);
     core::mem::forget(b);
 }
@@ -270,8 +278,9 @@ fn acked_step<const NS: usize, const NC: usize>() {
         // b.offset is an unacked written byte
         assert!(b.offset < written && color_ext(&b, b.offset) != Color::Recved);
     }
-    kani::cover!(all && NC > 0, "last outstanding bytes acked: completion");
-    kani::cover!(NC == 0 || (b.offset > offset && !all), "acked prefix dropped, more outstanding");
+    // (no map boundary: everything inside the window is already acked, nothing can change)
+    kani::cover!(NS == 0 || (all && NC > 0), "last outstanding bytes acked: completion");
+    kani::cover!(NS == 0 || NC == 0 || (b.offset > offset && !all), "acked prefix dropped, more outstanding");
     kani::cover!(NC < 2 || b.data.len() == 1, "a whole chunk dropped");
     kani::cover!(NC == 0 || (start < offset), "repeated ack of already dropped bytes");
     core::mem::forget(b);
